@@ -197,6 +197,21 @@ def isConf (cr : Cred) : Bool := (cr.server.realm.take 11) == "X-CACHECONF".toUT
 /-- `GetEntries`: configuration entries are left out -/
 def getEntries (c : CC) : List Cred := c.creds.filter (fun cr => !isConf cr)
 
+/-! ### the client built from a cache -/
+
+/-- the key of the client's ticket cache: the server name's components joined by '/' -/
+def spnOf (cr : Cred) : Bytes := [47].intercalate cr.server.comps
+
+/-- `Cache.addEntry`: one entry per SPN, a later one replaces an earlier one -/
+def cachePut (m : List (Bytes × Cred)) (cr : Cred) : List (Bytes × Cred) :=
+  (spnOf cr, cr) :: m.filter (fun e => !(e.1 == spnOf cr))
+
+def cacheLookup (m : List (Bytes × Cred)) (k : Bytes) : Option Cred := (m.find? (fun e => e.1 == k)).map (·.2)
+
+/-- `client.NewFromCCache`: every credential that is not a configuration entry goes into the client's ticket
+    cache with its own key, times and ticket, in file order -/
+def clientCache (c : CC) : List (Bytes × Cred) := (getEntries c).foldl cachePut []
+
 end Impl
 
 /-! ## Independent writer (MIT ccache format) -/
